@@ -90,6 +90,17 @@ func vSubSeed(seed uint64, prop string, i int) uint64 {
 	return binary.LittleEndian.Uint64(s[:8])
 }
 
+// Crumb appends a line to breadcrumbs.log *before* a risky step, so that a
+// crash of the child process can be attributed to the exact input.
+func (c *vCase) Crumb(format string, args ...any) {
+	c.Logf(format, args...)
+	if vCrumbs != nil {
+		fmt.Fprintf(vCrumbs, "case %d: %s\n", c.Idx, fmt.Sprintf(format, args...))
+	}
+}
+
+var vCrumbs *os.File
+
 func (c *vCase) Logf(format string, args ...any) {
 	c.mu.Lock()
 	defer c.mu.Unlock()
@@ -393,6 +404,13 @@ func vRun(t *testing.T, prop string, n func(tier string) int, fn func(c *vCase))
 		}
 		defer results.Close()
 		fmt.Fprintf(casesLog, "BEGIN %s total=%d shard=%d/%d start=%d\n", prop, total, e.shard, e.nshard, e.start)
+		vCrumbs, _ = os.OpenFile(filepath.Join(e.out, "breadcrumbs.log"), os.O_APPEND|os.O_CREATE|os.O_WRONLY, 0o644)
+		defer func() {
+			if vCrumbs != nil {
+				vCrumbs.Close()
+				vCrumbs = nil
+			}
+		}()
 	}
 	ran := 0
 	for i := 0; i < total; i++ {
